@@ -68,6 +68,29 @@ func (g *G) couple(a *ref.AP, cfg *Cfg) {
 	pick := func(l ...byte) byte { return l[t.Int(len(l))] }
 	switch a.Type {
 	case ref.ConnAck, ref.Disconnect:
+		if a.Type == ref.ConnAck && t.Bool(1, 3) {
+			// nothing but the 16-bit limits, two or three of them, whose values add up to
+			// 65536 or 65535 (sums and differences of limits are what servers compute)
+			ids := []byte{0x21, 0x22, 0x13}
+			x := uint32(g.U16())
+			vals := []uint32{x, 0x10000 - x, 0}
+			if t.Bool(1, 3) {
+				vals[1] = 0xffff - x
+			}
+			if t.Bool(1, 3) && vals[1] > 1 {
+				vals[2] = 1 + uint32(t.Int(int(vals[1]-1)))
+				vals[1] -= vals[2]
+			}
+			o := t.Int(3)
+			a.Props = nil
+			for k, v := range vals {
+				id := ids[(k+o)%3]
+				if v != 0 && v <= 0xffff && (cfg.Spec || cfg.CanSet == nil || cfg.CanSet(int(a.Type), id)) {
+					a.Props = append(a.Props, ref.Prop{ID: id, N: v})
+				}
+			}
+			return
+		}
 		if t.Bool(1, 2) {
 			a.Reason = pick(0x9C, 0x9D)
 			ensure(0x1C)
@@ -213,6 +236,11 @@ func (g *G) props(scope int, cfg *Cfg) []ref.Prop {
 					}
 				}
 				out[i+1].K = v
+			}
+			if cfg.Spec && n >= 1 && t.Bool(1, 12) {
+				// a zero-length NAME: a UTF-8 string pair like any other on the wire (only
+				// the library's own AddUserProp declines to send one)
+				out[first+t.Int(n)].K = []byte{}
 			}
 			if n >= 2 && t.Bool(1, 10) {
 				// two different keys with the same 32-bit hash (see collide.go)
